@@ -45,7 +45,8 @@ def proj_sfs_sem(s):
             w = common.word_bytes(int(val[0])) if int(val[0]) >= 0 else [0] * 33
         elif d in PSEUDO:
             w = derived_word(d, str(val[0]) if val else "", 20 if d in ("PUSHLIB", "PUSHDEPLOYADDRESS") else 32)
-        ins.append({"id": u["id"], "op": op, "inp": [el(x) for x in u["inpt_sk"]], "out": [el(x) for x in u["outpt_sk"]], "w": w})
+        ins.append({"id": u["id"], "op": op, "inp": [el(x) for x in u["inpt_sk"]], "out": [el(x) for x in u["outpt_sk"]], "w": w,
+                    "comm": bool(u.get("commutative", False))})
     return {"src": [el(x) for x in s["src_ws"]], "tgt": [el(x) for x in s["tgt_ws"]], "ins": ins,
             "deps": [[str(a), str(b)] for a, b in s.get("dependencies", [])], "cw": cw}
 
